@@ -5,8 +5,10 @@ import (
 	"flag"
 	"fmt"
 	"os"
+	"os/exec"
 	"path/filepath"
 	"regexp"
+	"runtime"
 	"sort"
 	"strconv"
 	"strings"
@@ -90,6 +92,7 @@ func cmdCheck(args []string) int {
 		seed, _ = strconv.Atoi(s)
 	}
 	t0 := time.Now()
+	runtime.GOMAXPROCS(6) // memory allocation is expensive in this sandbox; fewer Ps load faster
 	var cfg Config
 	data, err := os.ReadFile(filepath.Join(*verif, "props.json"))
 	if err != nil {
@@ -297,6 +300,9 @@ func cmdCheck(args []string) int {
 			}
 		}
 		for _, ob := range g.bad {
+			if ob.Candidate && !hasModel {
+				hasModel = true
+			}
 			if ob.Result != "sat" && ob.Model != "" {
 				fmt.Fprintf(&sb, "\n--- solver output ---\n%s\n", ob.Model)
 				break
@@ -438,6 +444,65 @@ func cmdCheck(args []string) int {
 	return 0
 }
 
+type replayEntry struct {
+	Match string `json:"match"` // substring of the obligation name
+	Pkg   string `json:"pkg"`   // package directory relative to the repository
+	File  string `json:"file"`  // test file under /verif/replay
+	Run   string `json:"run"`   // test name
+}
+
+// tryReplay runs the hand-written replay test registered for the obligation against the real code,
+// feeding it the solver's (candidate) counterexample. The test is injected with -overlay; nothing
+// is written into the repository.
 func tryReplay(verif, repo, prop, name string, bad []*Obligation, sb *strings.Builder) bool {
-	return false
+	data, err := os.ReadFile(filepath.Join(verif, "replay", "index.json"))
+	if err != nil {
+		return false
+	}
+	var idx []replayEntry
+	if json.Unmarshal(data, &idx) != nil {
+		return false
+	}
+	var ent *replayEntry
+	for i := range idx {
+		if strings.Contains(name, idx[i].Match) {
+			ent = &idx[i]
+			break
+		}
+	}
+	if ent == nil {
+		return false
+	}
+	var ob *Obligation
+	for _, b := range bad {
+		if b.CEValues != nil {
+			ob = b
+			break
+		}
+	}
+	if ob == nil {
+		return false
+	}
+	tmp, err := os.MkdirTemp("", "gverif-replay")
+	if err != nil {
+		return false
+	}
+	defer os.RemoveAll(tmp)
+	ce, _ := json.MarshalIndent(map[string]interface{}{"obligation": name, "property": prop, "values": ob.CEValues}, "", " ")
+	ceFile := filepath.Join(tmp, "ce.json")
+	os.WriteFile(ceFile, ce, 0o644)
+	target := filepath.Join(repo, ent.Pkg, "zz_verif_replay_test.go")
+	ov, _ := json.Marshal(map[string]interface{}{"Replace": map[string]string{target: filepath.Join(verif, "replay", ent.File)}})
+	ovFile := filepath.Join(tmp, "ov.json")
+	os.WriteFile(ovFile, ov, 0o644)
+	cmd := exec.Command("go", "test", "-overlay", ovFile, "-vet=off", "-count=1", "-timeout", "60s", "-run", "^"+ent.Run+"$", "-v", "./"+ent.Pkg)
+	cmd.Dir = repo
+	cmd.Env = append(os.Environ(), "GOFLAGS=-mod=mod", "GOPROXY=off", "GOSUMDB=off", "GOTOOLCHAIN=local", "VERIF_CE="+ceFile)
+	out, _ := cmd.CombinedOutput()
+	text := string(out)
+	if len(text) > 4000 {
+		text = text[:4000] + "\n..."
+	}
+	fmt.Fprintf(sb, "\n--- replay on the real code (%s, %s) ---\ncounterexample values: %s\n%s\n", ent.File, ent.Run, string(ce), text)
+	return strings.Contains(text, "REPRODUCED:")
 }
